@@ -12,7 +12,7 @@
 (***************************************************************************)
 EXTENDS RuleSet, TLC, Json, FiniteSets
 
-CONSTANTS K, MaxEvals, MaxLive, Grain, AllowDrop
+CONSTANTS K, MaxEvals, MaxLive, Grain, AllowDrop, NRules
 
 VARIABLES rsv,     \* the ruleset (must never change)
           cfg,     \* [kf, kg, same] chosen initially
@@ -22,9 +22,9 @@ vars == <<rsv, cfg, evals, gs, hist>>
 A == Ref(S("a"))
 Echo == <<[r |-> "echo"]>>
 MkRS(kf, kg) ==
-  [rules |-> << [name |-> S("r1"), expr |-> VecE(<<Call(S("f"), A), Call(S("g"), A)>>)],
-                [name |-> S("r2"), expr |-> Bin("add", Call(S("f"), A), Val(I(1)))],
-                [name |-> S("r3"), expr |-> Call(S("g"), Call(S("f"), Val(I(5))))] >>,
+  [rules |-> SubSeq(<< [name |-> S("r1"), expr |-> VecE(<<Call(S("f"), A), Call(S("g"), A)>>)],
+                       [name |-> S("r2"), expr |-> Bin("add", Call(S("f"), A), Val(I(1)))],
+                       [name |-> S("r3"), expr |-> Call(S("g"), Call(S("f"), Val(I(5))))] >>, 1, NRules),
    funcs |-> << [name |-> S("f"), cacheable |-> TRUE, suspend |-> kf, script |-> Echo],
                 [name |-> S("g"), cacheable |-> FALSE, suspend |-> kg, script |-> Echo] >>,
    syms |-> <<>>]
